@@ -124,6 +124,25 @@ Theorem C01_transcript_binding_partial : forall a b fra frb fab peer m1 m1' m2' 
 Proof. exact transcript_binding_partial. Qed.
 Print Assumptions C01_transcript_binding_partial.
 
+(** RESUMPTION BINDING, PARTIAL.  Initiator and responder both completed a RESUMED handshake.  Hypothesis
+    [mic1_from_initiator] (unforgeability): the Resume1MIC the responder accepted is the one this initiator
+    run computed.  The MIC key is HKDF(salt = initiator random || resumption id, shared secret) - a function
+    of the WHOLE random - and the session keys use the same salt; hence the responder saw the initiator's
+    random unaltered, both used the same record (secret, resumption id), and the directional keys agree
+    crosswise. *)
+Theorem C01_resume_binding_partial : forall a b fra fab peer m1' m2' sa sb,
+  initiator_resume_sound a fra fab peer m2' sa ->
+  responder_resume_sound b m1' sb ->
+  mic1_from_initiator a fra fab peer m1' ->
+  exists q ra rb,
+    parse_sigma1 m1' = Ok q /\ find_by_peer (n_cache a) fab peer = Some ra /\ In rb (n_cache b) /\
+    g1_random q = TNonce (fr_rand fra) /\ r_secret rb = r_secret ra /\ r_rid rb = r_rid ra /\
+    s_fab sa = r_fab ra /\ s_peer sa = r_peer ra /\ s_cats sa = r_cats ra /\
+    s_fab sb = r_fab rb /\ s_peer sb = r_peer rb /\ s_cats sb = r_cats rb /\
+    s_enc sa = s_dec sb /\ s_dec sa = s_enc sb.
+Proof. exact resume_binding_partial. Qed.
+Print Assumptions C01_resume_binding_partial.
+
 (** The known class is inhabited and violates "both ends hold a session => same directional keys": one
     element appended to Sigma3 on the wire; both ends complete, the keys differ. *)
 Theorem C01_known_class_inhabited :
